@@ -29,3 +29,19 @@ func (t *ReuseConnTransport) VerifC06Stats() (idle, all, serving, closed int) {
 // VerifC06SetRespTimeout sets the per-exchange I/O deadline (reuseConnQueryTimeout when zero).
 // Must be called before the first exchange.
 func (t *ReuseConnTransport) VerifC06SetRespTimeout(d time.Duration) { t.testRespTimeout = d }
+
+// VerifC06IdleOpen reports how many connections of the idle set are not marked closed
+// (i.e. whose idle timer has not fired yet).
+func (t *ReuseConnTransport) VerifC06IdleOpen() int {
+	t.m.Lock()
+	defer t.m.Unlock()
+	n := 0
+	for c := range t.idleConns {
+		c.m.Lock()
+		if !c.closed {
+			n++
+		}
+		c.m.Unlock()
+	}
+	return n
+}
